@@ -191,6 +191,7 @@ def check(ctx, rep, cfg):
         rep.ob("ONE-SHOT", name + tag, ok, why, loc=ofs[0].loc())
     rep.floor("one-shot functions" + tag, m, 9)
     hmac(rep, prog, tag)
+    buffer_invariants(rep, prog, tag)
 
 
 def inner_update_fn(prog, f, depth=0, inp=None):
@@ -311,3 +312,81 @@ def hmac(rep, prog, tag):
     ok = len(ups) == 2 and sorted(targets) == ["ictx", "octx"] and all(all(c.bb in g.dom.get(r, ()) for r in rets) for c in ups) and \
         not any(c.bb in g.reachable_from_after(c.bb) for c in ups)
     rep.ob("HMAC", "pads absorbed once each in init" + tag, ok, "init updates %s" % targets, loc=g.loc())
+
+
+def buffer_invariants(rep, prog, tag):
+    """BUFINV: forward abstract interpretation (disjunctive polyhedra over symbolic lengths) of the
+    crate-local inner hashers' `update`: the pending-buffer length invariant that `finalize` relies on is
+    inductive.  Poly1305: buffer < BLOCK on entry => buffer < BLOCK at every exit, and finalize hands exactly
+    one block to the partial-block routine.  BLAKE2b: buf <= BLOCK is inductive and a non-empty input never
+    leaves buf empty (the last block is always held back for finalisation)."""
+    from .. import absint, lenck as L
+    n = 0
+    for f in prog.fns:
+        if f.kind == "closure" or f.name != "update" or f.argc != 2:
+            continue
+        kind = None
+        if f.path.endswith("poly1305::poly1305_soft::Poly1305::update"):
+            kind = "poly"
+        elif f.path.endswith("::State::update") and "blake2b::blake2b_" in f.path:
+            kind = "blake"
+        if not kind:
+            continue
+        mod = f.path.rsplit("::", 2)[0]
+        cname = "BLOCK_SIZE" if kind == "poly" else "BLOCKBYTES"
+        cv = [c["v"] for p_, c in prog.consts.items() if p_ == "%s::%s" % (mod, cname)]
+        if not cv:
+            rep.violation("ANCHOR", "%s block size%s" % (f.path, tag), "constant %s::%s not found" % (mod, cname))
+            continue
+        B = int(cv[0])
+        # the tracked field: the Vec<u8> field of the state type
+        imp = prog.fn_impl(f)
+        adt = prog.adts.get(imp["self_ty"].get("path")) if imp else None
+        fields = [fd["name"] for v in (adt["variants"] if adt else []) for fd in v["fields"] if fd["ty"]["t"].startswith("std::vec::Vec<u8")]
+        if len(fields) != 1:
+            rep.violation("ANCHOR", "%s pending buffer%s" % (f.path, tag), "expected one Vec<u8> field in the state, found %s" % fields)
+            continue
+        fld = fields[0]
+        bound = B - 1 if kind == "poly" else B
+        it = absint.Interp(prog, f, [fld], lambda st: [L.ge(L.lin_const(bound), st.vec[fld])])
+        exits = it.run()
+        n += 1
+        bad = []
+        bad2 = []
+        inp = L.lin_var(("len", f.local_name(2)))
+        for b, st in exits:
+            ln = st.vec[fld]
+            g1 = L.ge(L.lin_const(bound), ln)
+            if not absint.entails_int(st.cons, g1):
+                bad.append(L.lin_repr(ln))
+            if kind == "blake":
+                g2 = L.ge(ln, L.lin_const(1))
+                if not absint.entails_int(st.cons + [L.ge(inp, L.lin_const(1))], g2):
+                    bad2.append(L.lin_repr(ln))
+        rep.ob("BUFINV", "%s|pending %s %s %d is inductive%s" % (f.path, fld, "<" if kind == "poly" else "<=", B, tag), not bad and bool(exits),
+               "%d abstract exit state(s); buffer length at exit: %s" % (len(exits), "all within bound" if not bad else "may be %s" % bad[:3]), loc=f.loc())
+        if kind == "blake":
+            rep.ob("BUFINV", "%s|non-empty input never leaves %s empty%s" % (f.path, fld, tag), not bad2 and bool(exits),
+                   "the last block is held back for finalisation" if not bad2 else "buffer may be empty at exit after absorbing input: %s" % bad2[:3], loc=f.loc())
+        if it.notes:
+            rep.note("BUFINV %s: %s" % (f.path, sorted(set(it.notes))[:3]))
+        # finalize side (Poly1305): the partial-block call receives exactly one block
+        if kind == "poly":
+            fins = [g for g in prog.fns if g.path == f.path.rsplit("::", 1)[0] + "::finalize"]
+            for g in fins:
+                blocks_fns = {c.rkey for c in f.calls() if c.is_local and c.name not in ("update",)}
+                it2 = absint.Interp(prog, g, [fld], lambda st: [L.ge(L.lin_const(bound), st.vec[fld])])
+                it2.probe = lambda c: c.is_local and c.rkey in blocks_fns
+                it2.run()
+                okp = bool(it2.probes)
+                detail = []
+                for c, st in it2.probes:
+                    r = it2.ref_of_operand(st, c.args[1])
+                    ln = it2.len_of_ref(st, r)
+                    if ln is None or not absint.entails_int(st.cons, L.eq(ln, L.lin_const(B))):
+                        okp = False
+                        detail.append(L.lin_repr(ln) if ln is not None else "unknown")
+                rep.ob("BUFINV", "%s|final partial block is exactly %d bytes%s" % (g.path, B, tag), okp,
+                       "%d abstract state(s) reach the block routine, each with a %d-byte block" % (len(it2.probes), B) if okp else
+                       "the padded final block may have length %s" % detail[:3], loc=g.loc())
+    rep.floor("crate-local inner update functions with a pending buffer" + tag, n, 2)
